@@ -9,7 +9,7 @@ class Check(RuntimeCheck):
     design_ref = 'DESIGN.md §4.3, §5 C04'
     theorems = ['C04_ordered_call_bumps', 'C04_accepts', 'C04_wrong_method', 'C04_wrong_inputs',
                 'C04_unordered_no_slot', 'C04_unmentioned_no_slot', 'C04_assembled_ranges',
-                'C04_accepted_call_refines', 'C04_unordered_keeps_invariant', 'ranges_of_setPat', 'modeOf_setPat', 'C04_source_slot_test', 'C04_source_slot_allocation', 'C04_source_new_pattern', 'C04_source_ordered_steps', 'C04_source_bump', 'C04_source_ordered_is_model', 'C04_source_find']
+                'C04_accepted_call_refines', 'C04_unordered_keeps_invariant', 'ranges_of_setPat', 'modeOf_setPat', 'C04_source_slot_test', 'C04_source_slot_allocation', 'C04_source_new_pattern', 'C04_source_ordered_steps', 'C04_source_bump', 'C04_source_ordered_is_model', 'C04_source_find', 'expGo_is_findSome', 'C04_source_expected']
 
     def run(self, tier, seed, replay=None):
         # re-translate the verification / slot-ownership functions of src/counter.rs and src/fn_mocker.rs first
